@@ -130,7 +130,7 @@ ASMJIT_FAVOR_SIZE Error ArchUtils::type_id_to_reg_signature(Arch arch, TypeId ty
   }
 
   RegType reg_type = RegType::kNone;
-  if (TypeUtils::is_between(type_id, TypeId::_kBaseStart, TypeId::_kVec32Start)) {
+  if (uint32_t(type_id) >= uint32_t(TypeId::_kBaseStart) && uint32_t(type_id) < uint32_t(TypeId::_kVec32Start)) {
     reg_type = arch_traits._type_id_to_reg_type[uint32_t(type_id) - uint32_t(TypeId::_kBaseStart)];
     if (reg_type == RegType::kNone) {
       if (type_id == TypeId::kInt64 || type_id == TypeId::kUInt64) {
